@@ -98,19 +98,23 @@ pub fn wait_end(mut c: Child, secs: u64) -> Ended {
     use std::os::unix::process::ExitStatusExt;
     let t0 = Instant::now();
     let mut err = c.stderr.take().unwrap();
-    let h = std::thread::spawn(move || {
+    // the scripts inherit zinoma's stderr: a script that outlives zinoma keeps the pipe open, so the reader
+    // is never joined unconditionally (it reports through a channel, with a bounded wait)
+    let (tx, rx) = std::sync::mpsc::channel::<String>();
+    std::thread::spawn(move || {
         let mut s = String::new();
         let _ = std::io::Read::read_to_string(&mut err, &mut s);
-        s
+        let _ = tx.send(s);
     });
+    let stderr_of = |rx: &std::sync::mpsc::Receiver<String>| rx.recv_timeout(Duration::from_millis(1500)).unwrap_or_else(|_| "<stderr still held open by a surviving child process>".to_string());
     loop {
         match c.try_wait().expect("try_wait") {
-            Some(st) => return Ended { code: st.code(), signal: st.signal(), stderr: h.join().unwrap_or_default(), timed_out: false, took: t0.elapsed() },
+            Some(st) => return Ended { code: st.code(), signal: st.signal(), stderr: stderr_of(&rx), timed_out: false, took: t0.elapsed() },
             None => {
                 if t0.elapsed() > Duration::from_secs(secs) {
                     let _ = c.kill();
                     let _ = c.wait();
-                    return Ended { code: None, signal: None, stderr: h.join().unwrap_or_default(), timed_out: true, took: t0.elapsed() };
+                    return Ended { code: None, signal: None, stderr: stderr_of(&rx), timed_out: true, took: t0.elapsed() };
                 }
                 std::thread::sleep(Duration::from_millis(2));
             }
@@ -724,6 +728,19 @@ fn c19_spellings() -> Option<(String, String)> {
     }
     if r.is_none() {
         r = check(&["both"], &["r::t", "r::u", "a::t", "a::u"]);
+    }
+    // equal target names in different projects, requested together, in both orders and spellings
+    if r.is_none() {
+        r = check(&["t", "a::t"], &["r::t", "r::u", "a::t", "a::u"]);
+    }
+    if r.is_none() {
+        r = check(&["a::t", "r::t"], &["r::t", "r::u", "a::t", "a::u"]);
+    }
+    if r.is_none() {
+        r = check(&["a::u", "u"], &["r::u", "a::u"]);
+    }
+    if r.is_none() {
+        r = check(&["--clean", "u", "a::u", "r::u"], &["r::u", "a::u"]);
     }
     if r.is_none() {
         // refused spellings: nothing runs
